@@ -101,3 +101,90 @@ Proof.
   - destruct (done s); [discriminate|]. destruct (qlen s); [destruct (ch_closed s); [|discriminate]|]; injection Hs as <-; exact HR.
   - injection Hs as <-. exact HR.
 Qed.
+
+(* ------------------------------------------------------------------ no call is left hanging (guarded code) *)
+
+Definition rem (p : pc) : nat :=
+  match p with
+  | CloseStart => 3 | CloseLoaded => 2 | CloseDeleted => 1 | CloseSent => 1
+  | DataStart => 2 | DataLoaded => 1 | DataChecked => 1 | Replied _ => 0
+  end.
+Definition work_of (l : list (nat * pc)) : nat := fold_right (fun tp a => rem (snd tp) + a) 0 l.
+Definition work (s : sst) : nat := work_of (threads s).
+
+Lemma work_tset t p q l : tget t l = Some q -> work_of (tset t p l) + rem q = work_of l + rem p.
+Proof.
+  induction l as [|[u r] l IH]; cbn [tget tset]; [discriminate|]. destruct (t =? u).
+  - intros H; inversion H; subst. cbn [work_of fold_right snd]. lia.
+  - intros H. cbn [work_of fold_right snd]. specialize (IH H). unfold work_of in IH. lia.
+Qed.
+
+(* every action of a call uses up some of its remaining work; the writer and the backend do not add any *)
+Theorem guarded_step_decreases cap s t s' : GInv s -> sstep Guarded cap s (Step t) = Some s' -> work s' < work s.
+Proof.
+  intros (Hp & _ & Ht) Hs. unfold sstep in Hs. rewrite Hp in Hs.
+  destruct (tget t (threads s)) as [p|] eqn:Et; [|discriminate].
+  assert (W : forall p', rem p' < rem p -> work_of (tset t p' (threads s)) < work_of (threads s)).
+  { intros p' Hlt. pose proof (work_tset t p' p (threads s) Et). lia. }
+  destruct p; try discriminate; try (exfalso; destruct (Ht t) as [A B]; congruence).
+  - injection Hs as <-. unfold work, keep, upd. cbn [threads]. apply W. destruct (in_table s); cbn; lia.
+  - injection Hs as <-. unfold work, upd. cbn [threads]. apply W. cbn; lia.
+  - destruct (flag_closed s).
+    + injection Hs as <-. unfold work, keep, upd. cbn [threads]. apply W. cbn; lia.
+    + destruct (qlen s <? cap).
+      * injection Hs as <-. unfold work, upd. cbn [threads]. apply W. cbn; lia.
+      * destruct (done s); [|discriminate]. injection Hs as <-. unfold work, upd. cbn [threads]. apply W. cbn; lia.
+  - injection Hs as <-. unfold work, keep, upd. cbn [threads]. apply W. destruct (in_table s); cbn; lia.
+  - destruct (flag_closed s || done s).
+    + injection Hs as <-. unfold work, keep, upd. cbn [threads]. apply W. cbn; lia.
+    + destruct (qlen s <? cap); [|discriminate]. injection Hs as <-. unfold work, upd. cbn [threads]. apply W. cbn; lia.
+Qed.
+
+Theorem guarded_env_keeps_work cap s l s' : (l = WriterPop \/ l = CtxDone) -> sstep Guarded cap s l = Some s' -> work s' = work s.
+Proof.
+  intros [-> | ->] Hs; unfold sstep in Hs; destruct (panicked s); try discriminate.
+  - destruct (done s); [discriminate|]. destruct (qlen s); [destruct (ch_closed s); [|discriminate]|]; injection Hs as <-; reflexivity.
+  - injection Hs as <-. reflexivity.
+Qed.
+
+Definition is_step (l : slbl) : bool := match l with Step _ => true | _ => false end.
+
+(* hence, whatever the interleaving, the calls together take at most `work` actions *)
+Theorem guarded_steps_bounded cap ls : forall s s', GInv s -> srun Guarded cap s ls = Some s' ->
+  length (filter is_step ls) + work s' <= work s.
+Proof.
+  induction ls as [|l ls IH]; intros s s' I H; cbn [srun] in H; [inversion H; subst; cbn; lia|].
+  destruct (sstep Guarded cap s l) as [s1|] eqn:E; [|discriminate].
+  specialize (IH s1 s' (ginv_step cap s l s1 I E) H). destruct l as [t| |]; cbn [filter is_step length].
+  - pose proof (guarded_step_decreases cap s t s1 I E). lia.
+  - rewrite (guarded_env_keeps_work cap s WriterPop s1 (or_introl eq_refl) E) in IH. exact IH.
+  - rewrite (guarded_env_keeps_work cap s CtxDone s1 (or_intror eq_refl) E) in IH. exact IH.
+Qed.
+
+(* a call that has not been answered can always take its next action, except when it has to put a
+   message into a full queue whose writer is still running - and then the writer can take one *)
+Theorem guarded_progress cap s t p : GInv s -> 1 <= cap -> tget t (threads s) = Some p -> (forall st, p <> Replied st) ->
+  sstep Guarded cap s (Step t) <> None \/
+  (done s = false /\ cap <= qlen s /\ sstep Guarded cap s WriterPop <> None).
+Proof.
+  intros (Hp & _ & Ht) Hc Et Hn. unfold sstep. rewrite Hp, Et.
+  destruct p; try (left; discriminate); try (exfalso; destruct (Ht t) as [A B]; congruence); try (exfalso; eapply Hn; reflexivity).
+  - (* CloseDeleted *)
+    destruct (flag_closed s); [left; discriminate|]. destruct (Nat.ltb_spec (qlen s) cap) as [L|L]; [left; discriminate|].
+    destruct (done s) eqn:Ed; [left; discriminate|]. right. split; [reflexivity|]. split; [exact L|].
+    destruct (qlen s); [lia|discriminate].
+  - (* DataLoaded *)
+    destruct (flag_closed s); cbn [orb]; [left; discriminate|]. destruct (done s) eqn:Ed; [left; discriminate|].
+    destruct (Nat.ltb_spec (qlen s) cap) as [L|L]; [left; discriminate|]. right. split; [reflexivity|]. split; [exact L|].
+    destruct (qlen s); [lia|discriminate].
+Qed.
+
+(* once the backend connection is gone every pending call can proceed *)
+Theorem guarded_progress_when_done cap s t p : GInv s -> done s = true -> tget t (threads s) = Some p -> (forall st, p <> Replied st) ->
+  sstep Guarded cap s (Step t) <> None.
+Proof.
+  intros (Hp & _ & Ht) Hd Et Hn. unfold sstep. rewrite Hp, Et.
+  destruct p; try discriminate; try (exfalso; destruct (Ht t) as [A B]; congruence); try (exfalso; eapply Hn; reflexivity).
+  - destruct (flag_closed s); [discriminate|]. destruct (qlen s <? cap); [discriminate|]. rewrite Hd. discriminate.
+  - rewrite Hd, orb_true_r. discriminate.
+Qed.
